@@ -64,6 +64,7 @@ class MS:
         self.active = list(m.initial)          # the library initialises the ids to the initial states
         self.hist = list(m.initial)
         self.inside = False
+        self.running = False                   # backmp11 m_running: set on first entry, cleared only by stop() on the root
         self.processing = False
         self.queue = []                        # message queue (back) / event pool (mp11)
         self.deferred = []                     # back: deferred queue
@@ -79,6 +80,7 @@ class MS:
         c.active = list(self.active)
         c.hist = list(self.hist)
         c.inside = self.inside
+        c.running = self.running
         c.processing = self.processing
         c.queue = [e.clone() for e in self.queue]
         c.deferred = [e.clone() for e in self.deferred]
@@ -444,6 +446,8 @@ class World:
 
     def exit_machine(self, sub: MS, ev: Ev, parent: MS):
         for r in range(len(sub.m.initial)):
+            if self.dialect == 'mp11' and not sub.running:
+                break       # backmp11 visits the active states of a machine only once it has been entered
             self.exit_state(sub, sub.active[r], ev)
         self.callback('X', parent if parent is not None else sub, sub.m.own_sid, ev)
         sub.hist = list(sub.active)
@@ -541,10 +545,13 @@ class World:
             return
         self.started = False
         self.tstack.append(root)
+        root_was_running = root.running
         try:
             self.exit_machine(root, Ev('$stop', -1), None)
         finally:
             self.tstack.pop()
+        root.running = False
+        del root_was_running
 
     # ------------------------------------------------------------------ observation
     def config(self):
@@ -885,6 +892,7 @@ class Mp11World(World):
         m = sub.m
         targets = self.entry_targets(sub, ev, how)
         sub.processing = True
+        sub.running = True
         # PROPERTY (C04): events submitted from the machine's own entry behaviour are not lost; the
         # pool of a machine entered without (applicable) history is reset before that behaviour runs
         if not self.history_applies(sub, ev):
